@@ -280,6 +280,12 @@ class PusTc(AbstractSpacePacket):
         """
         tc_unpacked = cls.empty()
         tc_unpacked.sp_header = SpacePacketHeader.unpack(data=data)
+        min_packet_len = CCSDS_HEADER_LEN + PusTcDataFieldHeader.get_header_size() + 2
+        if tc_unpacked.packet_len < min_packet_len:
+            raise ValueError(
+                f"declared packet length {tc_unpacked.packet_len} smaller than minimum"
+                f" PUS TC length {min_packet_len}"
+            )
         tc_unpacked.pus_tc_sec_header = PusTcDataFieldHeader.unpack(
             data=data[CCSDS_HEADER_LEN:]
         )
